@@ -87,8 +87,16 @@ def s1_s2(ck, an):
     for rd_ in [n for n in ast.walk(loop) if isinstance(n, ast.Subscript) and ast.unparse(n.value).endswith("exchange")]:
         k = fa.sym.canon(rd_.slice)
         ck.check(k == Cn.key(), "ARGFLOW", "S1.own-book", subj, fa.loc(rd_), "the quote is read from the position's own book", f"a quote is read from the book of {k[:90]}", construct=stmt_text(rd_))
+    if price_val is not None:
+        # every book the price's value id mentions is the position's own (also when the read sits in a helper evaluated in place)
+        pk = price_val.key()
+        others = [seg[:60] for seg in pk.split("self.exchange[")[1:] if not seg.startswith(Cn.key() + "]")]
+        ck.check("self.exchange[" in pk and not others, "ARGFLOW", "S1.own-book", subj, fa.loc(nan_tests[0]), "the liquidation price is read from the position's own book",
+                 f"the liquidation price reads the book of {others[:2]}", construct="self.exchange[contract]")
     # S2: quote reads only for non-zero positions
+    inloop = {id(x) for x in ast.walk(loop)}
     reads = [n for n in ast.walk(loop) if isinstance(n, ast.Subscript) and ast.unparse(n.value).endswith("exchange")]
+    reads += [e.node for e in fa.effects() if e.kind == "R" and e.attr == "exchange" and isinstance(e.node, ast.Call) and id(e.node) in inloop]      # reads made by a (new) helper called from the loop
     ck.floor("order-book reads in holdings_values", len(reads), 1)
     for rd in reads:
         preds = fa.guard_predicates(rd)
